@@ -1,0 +1,9 @@
+//go:build !verif
+
+package goatlang
+
+// Stubs for the verification hooks (see verif_on.go, build tag "verif").
+// With the tag off they are empty and inlinable.
+
+func verifNoOptimize() bool { return false }
+func (v *VM) verifTick()    {}
